@@ -33,11 +33,13 @@ type Program struct {
 	cg       *callgraph.Graph
 	chaG     *callgraph.Graph
 	External []string // packages treated as declaration-only (type errors of their own)
+	Dropped  []string // module packages that do not build in this configuration
 }
 
 type loadConfig struct {
-	Env   []string // extra environment (GOOS=..., CGO_ENABLED=0)
-	NoSSA bool
+	Env       []string // extra environment (GOOS=..., CGO_ENABLED=0)
+	NoSSA     bool
+	AllowDrop bool // alternative build configurations: module packages that do not build there are dropped, not fatal
 }
 
 func baseEnv() []string {
@@ -91,10 +93,15 @@ func Load(repo string, lc loadConfig) (*Program, error) {
 	}
 	var errs []string
 	external := map[string]bool{}
+	dropped := map[string]bool{}
 	for path, pk := range all {
 		inModule := path == modPath || strings.HasPrefix(path, modPath+"/")
 		if len(pk.Errors) > 0 {
 			if inModule {
+				if lc.AllowDrop {
+					dropped[path] = true
+					continue
+				}
 				for _, e := range pk.Errors {
 					errs = append(errs, e.Error())
 				}
@@ -118,6 +125,46 @@ func Load(repo string, lc loadConfig) (*Program, error) {
 	for e := range external {
 		p.External = append(p.External, e)
 	}
+	if lc.AllowDrop {
+		// hdf5 has no buildable files without cgo: treat a dependency that is not loadable as dropped too
+		for path, pk := range all {
+			inModule := path == modPath || strings.HasPrefix(path, modPath+"/")
+			if !inModule && (pk.Types == nil || len(pk.GoFiles) == 0 && len(pk.Errors) > 0) {
+				dropped[path] = true
+			}
+		}
+		for changed := true; changed; {
+			changed = false
+			for path, pk := range all {
+				if dropped[path] {
+					continue
+				}
+				for ip := range pk.Imports {
+					if dropped[ip] {
+						dropped[path] = true
+						changed = true
+					}
+				}
+			}
+		}
+		var keep []*packages.Package
+		for _, pk := range p.Pkgs {
+			if !dropped[pk.PkgPath] {
+				keep = append(keep, pk)
+			} else {
+				delete(p.ByPath, pk.PkgPath)
+			}
+		}
+		p.Pkgs = keep
+	}
+	for d := range dropped {
+		if d == modPath || strings.HasPrefix(d, modPath+"/") {
+			p.Dropped = append(p.Dropped, relPkg(d))
+		}
+		delete(all, d)
+		delete(external, d)
+	}
+	sort.Strings(p.Dropped)
 	sort.Strings(p.External)
 	if lc.NoSSA {
 		return p, nil
